@@ -180,6 +180,12 @@ func runC16(w *mon.W) {
 				sb.WriteString("<" + []string{"ENZYME NAME", "ISOSCHIZOMERS", "RECOGNITION SEQUENCE", "METHYLATION SITE", "MICROORGANISM", "SOURCE", "COMMERCIAL AVAILABILITY", "REFERENCES"}[r.Intn(8)] + ">   " + rbText(r, 60) + "\n")
 			case 2:
 				sb.WriteString("    =-=-=-=-=-=-=-=-=-=-=-=-=-=-=-=-=-=-=\n")
+				if r.Intn(3) == 0 {
+					// a list of contents naming the sections of the file: the title of the supplier table occurs in the prose,
+					// indented or padded, followed by further prose lines that begin with a capital letter
+					sb.WriteString([]string{"    ", "\t", " "}[r.Intn(3)] + "REBASE codes for commercial sources of enzymes" + []string{"", "   ", " (below)"}[r.Intn(3)] + "\n")
+					sb.WriteString(strings.Repeat(" ", r.Intn(17)) + string("ABCDEFGHIJKLMNOPQRSTUVWXYZ"[r.Intn(26)]) + "        " + rbText(r, 40) + " contents line\n")
+				}
 			default:
 				sb.WriteString(strings.Repeat(" ", r.Intn(17)) + rbText(r, 70) + "\n")
 			}
@@ -216,6 +222,7 @@ func runC16(w *mon.W) {
 			w.Add("listings_with_mixed_indent", 1)
 		}
 		suppliers := map[byte]string{}
+		aliasRows := 0
 		var avail []byte
 		for i := 0; i < 26; i++ {
 			if !sel[i] {
@@ -229,6 +236,10 @@ func runC16(w *mon.W) {
 				name = strings.Replace(name, " ", []string{"  ", "   ", "  -  ", " \t"}[r.Intn(4)], 1+r.Intn(2))
 			}
 			name += fmt.Sprintf(" (%d/%02d)", 1+r.Intn(12), r.Intn(22))
+			if len(avail) > 0 && r.Intn(12) == 0 {
+				name = suppliers[avail[r.Intn(len(avail))]] // a supplier kept under its old and its new letter: same text, two codes
+				aliasRows++
+			}
 			suppliers[letters[i]] = name
 			avail = append(avail, letters[i])
 			lineIndent := indent
@@ -244,6 +255,7 @@ func runC16(w *mon.W) {
 			nrec = r.Intn(12)
 		}
 		var recs []rbRecord
+		undefinedLetters := 0
 		longLines := 0
 		names := map[string]bool{}
 		for i := 0; i < nrec; i++ {
@@ -277,6 +289,19 @@ func runC16(w *mon.W) {
 					rec.Suppliers += string(avail[r.Intn(len(avail))])
 				}
 			}
+			if len(avail) < 26 && r.Intn(25) == 0 {
+				// a letter the file's own table does not define (a supplier that was dropped from the table): it decodes
+				// to the empty name, the letters around it to theirs
+				for {
+					c := letters[r.Intn(26)]
+					if _, ok := suppliers[c]; !ok {
+						at := r.Intn(len(rec.Suppliers) + 1)
+						rec.Suppliers = rec.Suppliers[:at] + string(c) + rec.Suppliers[at:]
+						undefinedLetters++
+						break
+					}
+				}
+			}
 			for j := r.Intn(4); j > 0 && r.Intn(2) == 0; j-- {
 				x := rbText(r, 150)
 				if x != "" {
@@ -303,6 +328,8 @@ func runC16(w *mon.W) {
 			}
 		}
 		w.Add("record_lines_longer_than_4_KiB", int64(longLines))
+		w.Add("supplier_rows_repeating_the_text_of_another_letter", int64(aliasRows))
+		w.Add("supplier_letters_the_table_does_not_define", int64(undefinedLetters))
 		w.Eval(nontriv, mon.Hash64(listing))
 		rep := map[string]any{"listing": clip(listing, 20000), "indent": map[bool]string{true: "tabs", false: "blanks"}[tabs]}
 		var got map[string]rebase.Enzyme
